@@ -36,7 +36,8 @@ def run(ctx):
                  ("C01-R2", "every revival bumps the generation of that index"),
                  ("C01-R3", "free list: truncate to the atomic length before mutating, resync after"),
                  ("C01-R4", "an immediate kill folds the pending deferred raise before dying"),
-                 ("C01-R5", "generation step function: die keeps the magnitude and makes it dead, revival yields a strictly larger live generation")]:
+                 ("C01-R5", "generation step function: die keeps the magnitude and makes it dead, revival yields a strictly larger live generation"),
+                 ("C01-R6", "the world's entity allocator is installed once, by the world constructor")]:
         ctx.rule(r, t)
     for cfg in configs(ctx.tier):
         facts = ctx.xfacts(cfg)
@@ -47,6 +48,7 @@ def run(ctx):
         r3(ctx, facts, model)
         r4(ctx, facts, model)
         r5(ctx, facts, model)
+        r6(ctx, facts)
 
 
 def occupy_sites(model, b):
@@ -378,3 +380,27 @@ def r5(ctx, facts, model):
     ctx.floor("C01-R5", "generation liveness predicates", n_live, 2)
     ctx.floor("C01-R5", "generation kill steps", n_die, 1)
     ctx.floor("C01-R5", "generation revival steps", n_rev, 3)
+
+
+def r6(ctx, facts):
+    """One allocator per world, for the world's whole life.  Uniqueness of handles is a property of the history the allocator has seen; replacing the
+    `EntitiesRes` resource of a living world (seed C01-k1: a storage set-up helper `if !res.has_value::<Entities>() { res.insert(EntitiesRes::default()) }`
+    - `Entities` is the `Read<..>` alias, never a resource, so the test is always true) starts the history over while the earlier entities still
+    exist.  Who-may-call rule: `World::insert` / `entry` / `remove` instantiated for the entities resource occur only in the world constructor
+    (`WorldExt::new`); the constructor's own site is the matcher's positive example."""
+    ENT = "world::entity::EntitiesRes"
+    sites = []
+    for b in facts.all_bodies:
+        for bb, t in b.real_calls():
+            c = t["callee"]
+            if c.get("crate") == "shred" and c.get("name") in ("insert", "entry", "remove", "insert_by_id", "remove_by_id") and \
+                    any(x.replace(" ", "") == ENT for x in c.get("substs", [])):
+                sites.append((b, bb, c.get("path")))
+    ctor = [x for x in sites if x[0].path.endswith("WorldExt>::new") or x[0].trait_item == "world::world_ext::WorldExt::new" or
+            x[0].src(x[1]).endswith("WorldExt>::new")]
+    ctx.ob("C01-R6", "the world constructor installs the entity allocator", bool(ctor), ctor[0][0].loc(ctor[0][1]) if ctor else "",
+           "" if ctor else "no World::insert::<EntitiesRes> found in WorldExt::new: the matcher is dead or the constructor changed", nontrivial=False)
+    others = [x for x in sites if x not in ctor]
+    ctx.ob("C01-R6", "nothing else installs, replaces or removes the entity allocator", not others, others[0][0].loc(others[0][1]) if others else "",
+           "" if not others else "; ".join("%s calls %s::<EntitiesRes> at %s" % (b.path, p, b.loc(bb)) for b, bb, p in others[:3]) +
+           " - a second allocator in a living world hands out handles that earlier entities already hold")
